@@ -648,8 +648,10 @@ def plan(tier, seed):
     idx = 0
     for name, _, nshards in WORKLOADS:
         for j in range(nshards):
-            specs.append({"name": "%s-%d" % (name, j), "workload": name, "shard": idx, "cases": (8 if name == "gaussian-discrete" else 6) if tier == "quick" else 40,
-                          "shots": 2500 if tier == "quick" else 40000,
+            specs.append({"name": "%s-%d" % (name, j), "workload": name, "shard": idx, "cases": (8 if name == "gaussian-discrete" else 6) if tier == "quick" else 30,
+                          # thorough: 4x the shots and 5x the cases of the quick tier; 40000 shots x 40 cases (first version) ran for
+                          # more than 80 minutes in one passive shard (samplers cost ~10 ms per shot) and was never completed
+                          "shots": 2500 if tier == "quick" else 10000,
                           "env": {"OPENBLAS_NUM_THREADS": "1", "OMP_NUM_THREADS": "2", "NUMBA_NUM_THREADS": "2"}})
             idx += 1
     return specs
@@ -663,7 +665,7 @@ def run_shard(spec):
     ctx = Ctx()
     fn = dict((n, f) for n, f, _ in WORKLOADS)[spec["workload"]]
     t0 = time.time()
-    budget = 200 if spec["tier"] == "quick" else 3000
+    budget = 200 if spec["tier"] == "quick" else 2400
     for i in range(int(spec["cases"])):
         if time.time() - t0 > budget:
             ctx.obs.add("shard stopped by time budget after %d cases" % i)
